@@ -178,6 +178,9 @@ Proofs/Batch.vos Proofs/Batch.vok Proofs/Batch.required_vos: Proofs/Batch.v Mode
 Proofs/PT05.vo Proofs/PT05.glob Proofs/PT05.v.beautified Proofs/PT05.required_vo: Proofs/PT05.v Model/Mon.vo Model/MonC05.vo Model/MonC03.vo Model/MonC05h.vo Proofs/Framework.vo Proofs/StoreLocks.vo Proofs/StorePromises.vo Proofs/StoreCallbacks.vo Proofs/Discipline.vo Proofs/SysInv.vo Proofs/Eqb.vo Proofs/PC03.vo Proofs/PC05.vo Proofs/Hist.vo Proofs/PT03.vo Proofs/Batch.vo
 Proofs/PT05.vio: Proofs/PT05.v Model/Mon.vio Model/MonC05.vio Model/MonC03.vio Model/MonC05h.vio Proofs/Framework.vio Proofs/StoreLocks.vio Proofs/StorePromises.vio Proofs/StoreCallbacks.vio Proofs/Discipline.vio Proofs/SysInv.vio Proofs/Eqb.vio Proofs/PC03.vio Proofs/PC05.vio Proofs/Hist.vio Proofs/PT03.vio Proofs/Batch.vio
 Proofs/PT05.vos Proofs/PT05.vok Proofs/PT05.required_vos: Proofs/PT05.v Model/Mon.vos Model/MonC05.vos Model/MonC03.vos Model/MonC05h.vos Proofs/Framework.vos Proofs/StoreLocks.vos Proofs/StorePromises.vos Proofs/StoreCallbacks.vos Proofs/Discipline.vos Proofs/SysInv.vos Proofs/Eqb.vos Proofs/PC03.vos Proofs/PC05.vos Proofs/Hist.vos Proofs/PT03.vos Proofs/Batch.vos
+Proofs/PT13.vo Proofs/PT13.glob Proofs/PT13.v.beautified Proofs/PT13.required_vo: Proofs/PT13.v Model/Mon.vo Proofs/Framework.vo Proofs/StoreLocks.vo Proofs/StorePromises.vo Proofs/StoreCallbacks.vo Proofs/Discipline.vo Proofs/SysInv.vo Proofs/Eqb.vo Proofs/PC05.vo Proofs/Batch.vo
+Proofs/PT13.vio: Proofs/PT13.v Model/Mon.vio Proofs/Framework.vio Proofs/StoreLocks.vio Proofs/StorePromises.vio Proofs/StoreCallbacks.vio Proofs/Discipline.vio Proofs/SysInv.vio Proofs/Eqb.vio Proofs/PC05.vio Proofs/Batch.vio
+Proofs/PT13.vos Proofs/PT13.vok Proofs/PT13.required_vos: Proofs/PT13.v Model/Mon.vos Proofs/Framework.vos Proofs/StoreLocks.vos Proofs/StorePromises.vos Proofs/StoreCallbacks.vos Proofs/Discipline.vos Proofs/SysInv.vos Proofs/Eqb.vos Proofs/PC05.vos Proofs/Batch.vos
 Proofs/PC14.vo Proofs/PC14.glob Proofs/PC14.v.beautified Proofs/PC14.required_vo: Proofs/PC14.v Model/Mon.vo Proofs/Eqb.vo Proofs/StorePromises.vo
 Proofs/PC14.vio: Proofs/PC14.v Model/Mon.vio Proofs/Eqb.vio Proofs/StorePromises.vio
 Proofs/PC14.vos Proofs/PC14.vok Proofs/PC14.required_vos: Proofs/PC14.v Model/Mon.vos Proofs/Eqb.vos Proofs/StorePromises.vos
@@ -259,9 +262,9 @@ Props/C11.vos Props/C11.vok Props/C11.required_vos: Props/C11.v Model/Mon.vos Mo
 Props/C02.vo Props/C02.glob Props/C02.v.beautified Props/C02.required_vo: Props/C02.v Model/Mon.vo Model/MonC01.vo Model/MonC02.vo Model/MonC03.vo Proofs/SysInv.vo Proofs/PC01.vo Proofs/PC03.vo Proofs/PC02.vo
 Props/C02.vio: Props/C02.v Model/Mon.vio Model/MonC01.vio Model/MonC02.vio Model/MonC03.vio Proofs/SysInv.vio Proofs/PC01.vio Proofs/PC03.vio Proofs/PC02.vio
 Props/C02.vos Props/C02.vok Props/C02.required_vos: Props/C02.v Model/Mon.vos Model/MonC01.vos Model/MonC02.vos Model/MonC03.vos Proofs/SysInv.vos Proofs/PC01.vos Proofs/PC03.vos Proofs/PC02.vos
-Props/C13.vo Props/C13.glob Props/C13.v.beautified Props/C13.required_vo: Props/C13.v Model/Mon.vo Model/MonC13.vo Model/MonC05.vo Model/MonC03.vo Model/MonC05h.vo Model/Valid.vo Model/Route.vo Model/Plug.vo Proofs/Discipline.vo Proofs/SysInv.vo Proofs/PC13.vo Proofs/PT05.vo Spec/WitnessD2.vo
-Props/C13.vio: Props/C13.v Model/Mon.vio Model/MonC13.vio Model/MonC05.vio Model/MonC03.vio Model/MonC05h.vio Model/Valid.vio Model/Route.vio Model/Plug.vio Proofs/Discipline.vio Proofs/SysInv.vio Proofs/PC13.vio Proofs/PT05.vio Spec/WitnessD2.vio
-Props/C13.vos Props/C13.vok Props/C13.required_vos: Props/C13.v Model/Mon.vos Model/MonC13.vos Model/MonC05.vos Model/MonC03.vos Model/MonC05h.vos Model/Valid.vos Model/Route.vos Model/Plug.vos Proofs/Discipline.vos Proofs/SysInv.vos Proofs/PC13.vos Proofs/PT05.vos Spec/WitnessD2.vos
+Props/C13.vo Props/C13.glob Props/C13.v.beautified Props/C13.required_vo: Props/C13.v Model/Mon.vo Model/MonC13.vo Model/MonC05.vo Model/MonC03.vo Model/MonC05h.vo Model/Valid.vo Model/Route.vo Model/Plug.vo Proofs/Discipline.vo Proofs/SysInv.vo Proofs/PC13.vo Proofs/PT05.vo Proofs/PT13.vo Spec/WitnessD2.vo
+Props/C13.vio: Props/C13.v Model/Mon.vio Model/MonC13.vio Model/MonC05.vio Model/MonC03.vio Model/MonC05h.vio Model/Valid.vio Model/Route.vio Model/Plug.vio Proofs/Discipline.vio Proofs/SysInv.vio Proofs/PC13.vio Proofs/PT05.vio Proofs/PT13.vio Spec/WitnessD2.vio
+Props/C13.vos Props/C13.vok Props/C13.required_vos: Props/C13.v Model/Mon.vos Model/MonC13.vos Model/MonC05.vos Model/MonC03.vos Model/MonC05h.vos Model/Valid.vos Model/Route.vos Model/Plug.vos Proofs/Discipline.vos Proofs/SysInv.vos Proofs/PC13.vos Proofs/PT05.vos Proofs/PT13.vos Spec/WitnessD2.vos
 Props/C15.vo Props/C15.glob Props/C15.v.beautified Props/C15.required_vo: Props/C15.v Gen/Status.vo Spec/Front15.vo Model/Coro.vo Model/Equiv.vo Model/Render.vo Proofs/PC15.vo
 Props/C15.vio: Props/C15.v Gen/Status.vio Spec/Front15.vio Model/Coro.vio Model/Equiv.vio Model/Render.vio Proofs/PC15.vio
 Props/C15.vos Props/C15.vok Props/C15.required_vos: Props/C15.v Gen/Status.vos Spec/Front15.vos Model/Coro.vos Model/Equiv.vos Model/Render.vos Proofs/PC15.vos
